@@ -13,6 +13,9 @@ DENSE = {
     'C10': dict(n=4, space=65536, per=5),
     'C18': dict(n=4, space=65536, per=10),
     'C13': dict(n=3, space=256 * 16, per=5, bg=['gc', 'finalize']),
+    'C06': dict(n=3, space=5 * 8 ** 5, per=12, flavor='raw', bg=[]),
+    'C07': dict(n=3, space=6 * 256, per=3, bg=['gc', 'finalize']),
+    'C05': dict(n=3, space=36 * 4 * 216, per=30),
 }
 DENSE_RATE = dict(quick=0.08, thorough=0.35)
 
@@ -178,7 +181,10 @@ def _make_cfg(prop, seed, tier='quick', idx=0):
         cfg['disk_faults'] = False
     if prop in DENSE and r.random() < DENSE_RATE.get(tier, 0.0):
         d = dict(DENSE[prop])
-        d.update(kind=prop, block=idx, bg_rate=r.choice([0.0, 0.1, 0.2, 0.35]), pos_x=0, pos_xp=1)
+        d.update(kind=prop, block=idx, bg_rate=r.choice([0.0, 0.1, 0.2, 0.35]), pos_x=0, pos_xp=1,
+                 f=r.randrange(256), g=r.randrange(256), route=r.randrange(4))
+        if d.get('flavor'):
+            cfg['flavor'] = d['flavor']
         if prop in ('C02', 'C03', 'C04', 'C10', 'C18') and r.random() < 0.5:
             d['n'] = r.choice([1, 2, 3])
             d['space'] = 1 << (1 << d['n'])
